@@ -28,7 +28,7 @@ TECH = {
     'C17': ('property-based end-to-end testing on generated scenes with validity thresholds', '4 C17'),
     'C18': ('property-based testing: defining identities by loops + axis-move metamorphic relation', '4 C18'),
     'C19': ('property-based testing: algebraic identities + metamorphic scalings/permutations', '4 C19'),
-    'C20': ('Hypothesis stateful (rule-based) machine vs fresh-trainer model; byte-identity of read-only inputs', '4 C20'),
+    'C20': ('Hypothesis stateful (rule-based) machine vs fresh-trainer model; byte-identity of read-only inputs; generated call histories replayed against a pristine in-process copy of the library (differential)', '4 C20'),
 }
 
 
